@@ -136,12 +136,12 @@ CLAIMED = {
     'C09': dict(
         text='PARTIAL. UNBOUNDED on a fragment: for every tree - any size and depth - of plain paragraphs of one or more lines, ATX headings, fenced code blocks, block quotes and single-item lists, '
              'parsing the spelled text with the Markdown renderer\'s token sets (model of Document(lines)) and rendering it without a line limit gives back exactly the text '
-             '(C09_fragment_round_trip; hence same meaning, fixed point, exact normal form); the two side conditions (a fence is not empty, code lines do not begin with white space) are '
-             'shown necessary by kernel evaluation and are two of the recorded findings; the same identity is proved for tight nested bullet lists written one item per line (any size, depth, bullet, padding, indentation). Beyond these fragments, proved for ALL token trees about the Gallina model of the Markdown renderer: without a line limit the fragment texts are written '
+             '(C09_fragment_round_trip; hence same meaning, fixed point, exact normal form) with no side condition - the two the proof first forced (a fence is not empty, code lines do not begin with white space) were renderer defects and are repaired (fix: 50fc060, 1070095); '
+             'the same identity is proved for tight nested bullet lists written one item per line (any size, depth, bullet, padding, indentation). Beyond these fragments, proved for ALL token trees about the Gallina model of the Markdown renderer: without a line limit the fragment texts are written '
              'verbatim with exactly one final newline; HTML blocks are reproduced verbatim; blank lines and link reference definitions are written in '
              'place; container prefixes go exactly in front of the children\'s lines (count preserved). The model is tied to the code by X-md on the 652 '
              'spec examples and generated documents x normalize_whitespace. Beyond the fragment the three clauses of the property (same meaning, idempotent, exact on '
-             'normal form) are decided by the oracle on the implementation; inputs in the seven recorded finding classes are '
+             'normal form) are decided by the oracle on the implementation; inputs in the five recorded finding classes are '
              'identified by classifiers and reported as KNOWN-FINDING.',
         note='Trusted: Coq kernel, extraction, hand-written model of markdown_renderer.py, document generator, finding classifiers. The parse half of the round trip is proved on the fragment only.',
         technique='Coq proof: round trip identity on a fragment (induction on nesting depth over the parser and renderer models) and the renderer half for all trees + extracted-model correspondence; round-trip clauses by generator-oracle',
@@ -174,7 +174,7 @@ CLAIMED = {
         technique='Coq proof (induction over the dispatch loop and reader loops) + extracted-model correspondence + line-recording generator oracle',
         design='5/C13'),
     'C06': dict(
-        text='Unbounded, end to end through the inline phase: the texts *w*, _w_, **w**, __w__ whose inside w (any length) is free of trigger characters and begins and ends with a character that is neither white space nor punctuation tokenize to exactly one Emphasis / Strong holding w, rendered <em>w</em> / <strong>w</strong> (scanner, flanking, process_emphasis, all span finders, candidate tokenizer: C06_simple_emphasis). Unbounded theorems: the flanking classification of the model (is_opener / is_closer) equals the specification\'s left/right flanking with the '
+        text='Unbounded, end to end through the inline phase: the texts *w*, _w_, **w**, __w__ whose inside w (any length) is free of trigger characters and begins and ends with a character that is neither white space nor punctuation tokenize to exactly one Emphasis / Strong holding w, rendered <em>w</em> / <strong>w</strong> (scanner, flanking, process_emphasis, all span finders, candidate tokenizer: C06_simple_emphasis); the same pair of runs inside a sentence, pre + run + w + run + post with trigger-free text of any length before and after it that meets the runs with white space, punctuation or nothing, tokenizes to text, one Emphasis / Strong, text (C06_emphasis_in_sentence). Unbounded theorems: the flanking classification of the model (is_opener / is_closer) equals the specification\'s left/right flanking with the '
              'underscore restrictions for ALL strings and positions (both character tables regenerated; the implementation\'s sets are proved equal to '
              'sets derived from unicodedata by the CommonMark definition), and closed_by is the negated rule of three on original lengths. Bounded theorems, '
              'kernel-evaluated in 33 shards: the complete inline parse of the model equals an independent Gallina transcription of the specification\'s '
